@@ -119,6 +119,20 @@ Proof.
     rewrite Hc in Fa. destruct c; try discriminate. apply Hn; reflexivity.
 Qed.
 
+Lemma only_by_design_true : only_by_design_b = true.
+Proof. vm_compute. reflexivity. Qed.
+
+Lemma no_stale_options_except_by_design :
+  no_stale_options_except by_design /\ (forall a, In a by_design -> class_of a = Some Finding).
+Proof.
+  pose proof only_by_design_true as T. unfold only_by_design_b in T. apply andb_true_iff in T as [T1 T2].
+  split.
+  - intros a Ha. pose proof (proj1 (forallb_forall _ _) T1 a Ha) as C. simpl in C.
+    destruct (class_of a) as [c|]; [|discriminate]. exists c; split; auto. intros ->. apply mem_In; exact C.
+  - intros a Ha. pose proof (proj1 (forallb_forall _ _) T2 a Ha) as C. simpl in C.
+    destruct (class_of a) as [[]|]; try discriminate; reflexivity.
+Qed.
+
 (* model-level witness: an analysis that reads an option outside the key gives a stale warm result *)
 Lemma stale_outside_key_refuted :
   let K := options_affecting_cache_no_platform in
